@@ -7,19 +7,33 @@ import TantivyModel.Model.Positions
 import TantivyModel.Model.TermInfoStore
 import TantivyModel.Model.BlockCursor
 import TantivyModel.Model.Recorder
+import TantivyModel.Model.JsonPositions
+import TantivyModel.Model.PositionReader
+import TantivyModel.Model.FieldSerializer
+import TantivyModel.Model.Expull
+import TantivyModel.Proofs.VInt32Source
 /-!
 Line protocol of the C07 model (see harness/src/props/c07.rs):
 
 * `vint_enc <n>` → hex; `vint_dec <hex>` → `<n> <consumed>` | `err`
+* `vint32_src <n>` → hex of the bytes of the rs2lean translation of serialize_vint_u32
 * `vint32_enc <n>` (serialize_vint_u32) → hex; `vint32_dec <hex>` (read_u32_vint_no_advance) → `<n> <len>` | `err`
 * `recycle <opt> <df1> <hex1> <A<k>|D|S<target>> <df2> <hex2>` → `<docs>|<tfs>` drained from a block cursor opened on list 1, moved, then reset to list 2
+* `lazyseeks <opt> <doc_freq> <hex> <targets>` → the doc each `BlockSegmentPostings::seek` of the program lands on (lazy cursor model)
+* `lazyops <opt> <doc_freq> <hex> <A|S<target>,…>` → after each block-level op (`advance`: first doc of the new block; `seek`: the doc landed on)
+* `lazyseeks_tf <opt> <doc_freq> <hex> <targets>` → the term frequency the frequency buffer shows after each seek (0 when the seek ran off the end)
 * `tis_write <df:ps:pe:qs:qe;…>` → hex of the TermInfoStore bytes; `tis_get <hex> <ord>` → `df:ps:pe:qs:qe` | `err`
 * `numbits <n>`; `fn_to_id <n>`; `id_to_fn <i>`
 * `enc <opt> <docs> <tfs>` → hex of the term's postings bytes
 * `dec <opt> <doc_freq> <hex>` → `<docs>|<tfs>` | `err`
 * `seek <opt> <doc_freq> <hex> <program>` → doc after every op
 * `pos_enc <deltas>` → hex; `pos_read <hex> <offset> <len>` → values | `err`
+* `pos_reads <hex> <off:len,off:len,…>` → the outputs of that sequence of reads on ONE stateful PositionReader, separated by `|`
 * `blocksearch <values> <target>` → index
+* `invert_json <opt> <docs separated by ; and events by slash: <pathhex>~T~<tokens> | <pathhex>~N~<termhex>>` → `<terms>|<total_num_tokens>`
+* `pipeline_remap <opt> <new ids, comma separated, indexed by old id> <corpus>` → `<terms>|<total>` through the doc_id_map branch of Recorder::serialize
+* `expull <n> <i:hex;i:hex;…>` → `hex|…|hex|<arena len>`: read_to_end of each of the n ExpUnrolledLinkedLists after the writes, and the arena's allocated length
+* `segment <opt> <corpus>` → `df:ps:pe:qs:qe;…`, the TermInfos of the terms in byte order (recorders → FieldSerializer)
 * `pipeline <opt> <corpus>` → same format as `invert`, computed through recorders → serializer → decoder
 * `invert <opt> <corpus>` → `<terms>|<total_num_tokens>|<fieldnorm ids>`
 -/
@@ -88,6 +102,30 @@ def handleInvert (o : String) (corpus : String) : String :=
   | some o, some c => showInverted o (invert c)
   | _, _ => "bad-op"
 
+def parseJEvent (s : String) : Option JsonPositions.JEvent :=
+  match s.splitOn "~" with
+  | [ph, "T", toks] =>
+    match natsOfHex ph, parseValue toks with
+    | some p, some v => some { path := p, text := true, toks := v }
+    | _, _ => none
+  | [ph, "N", th] =>
+    match natsOfHex ph, natsOfHex th with
+    | some p, some t => some { path := p, text := false, toks := [{ term := t, pos := 0, posLen := 1 }] }
+    | _, _ => none
+  | _ => none
+
+def parseJDoc (s : String) : Option (List JsonPositions.JEvent) :=
+  if s.isEmpty then some [] else (s.splitOn "/").mapM parseJEvent
+
+def handleInvertJson (o : String) (corpus : String) : String :=
+  match parseOpt o, (if corpus == "-" then some [] else (corpus.splitOn ";").mapM parseJDoc) with
+  | some o, some c =>
+    let r := JsonPositions.invertJson o c
+    (if r.1.isEmpty then "-" else ";".intercalate (r.1.map (fun e =>
+      (hexOfNats e.1).getD "bad" ++ "=" ++ ",".intercalate (e.2.map showPosting))))
+    ++ "|" ++ toString r.2
+  | _, _ => "bad-op"
+
 /-- the modelled indexing pipeline, in the response format of `invert` -/
 def handlePipeline (o : String) (corpus : String) : String :=
   match parseOpt o, parseCorpus corpus with
@@ -105,6 +143,52 @@ def handlePipeline (o : String) (corpus : String) : String :=
     ++ "|" ++ toString ix.totalNumTokens ++ "|" ++
     showNatList (c.map (fun d => FieldNorm.fieldnormId (Recorder.docTokenCount o d)))
   | _, _ => "bad-op"
+
+def parseWrite (s : String) : Option (Nat × List Nat) :=
+  match s.splitOn ":" with
+  | [i, h] =>
+    match i.toNat?, (if h == "-" then some [] else natsOfHex h) with
+    | some i, some b => some (i, b)
+    | _, _ => none
+  | _ => none
+
+/-- several `ExpUnrolledLinkedList`s in one arena -/
+def handleExpull (n : String) (ws : String) : String :=
+  match n.toNat?, (if ws == "-" then some [] else (ws.splitOn ";").mapM parseWrite) with
+  | some n, some ws =>
+    if ws.all (fun w => w.1 < n) then
+      let r := Expull.runWrites (List.replicate n Expull.Eull.default) Expull.Arena.empty ws
+      let outs := r.1.map (fun e =>
+        let bs := Expull.readToEnd e r.2
+        if bs.isEmpty then "-" else (hexOfNats bs).getD "bad")
+      "|".intercalate (outs ++ [toString r.2.len])
+    else "bad-op"
+  | _, _ => "bad-op"
+
+/-- the TermInfos of the field's terms as `serialize_postings` lays them out -/
+def handleSegment (o : String) (corpus : String) : String :=
+  match parseOpt o, parseCorpus corpus with
+  | some o, some c =>
+    let f := FieldSerializer.segmentFiles o c
+    if f.infos.isEmpty then "-" else ";".intercalate (f.infos.map showTermInfo)
+  | _, _ => "bad-op"
+
+/-- the `doc_id_map` branch: index the corpus in arrival order, serialize with the doc ids mapped
+through `newIds` (old id ↦ new id) -/
+def handlePipelineRemap (o : String) (ids : String) (corpus : String) : String :=
+  match parseOpt o, natList ids, parseCorpus corpus with
+  | some o, some ids, some c =>
+    let ix := Recorder.indexCorpus o c
+    let newId : Nat → Nat := fun d => ids.getD d d
+    let entries := (termsOf Gen.Postings.POSITION_GAP c).map (fun t =>
+      match ix.table t with
+      | none => (hexOfNats t).getD "bad" ++ "=missing"
+      | some r =>
+        match Recorder.readBack o (Recorder.serializeTermRemapped o r newId) with
+        | none => (hexOfNats t).getD "bad" ++ "=unreadable"
+        | some ps => (hexOfNats t).getD "bad" ++ "=" ++ ",".intercalate (ps.map showPosting))
+    (if entries.isEmpty then "-" else ";".intercalate entries) ++ "|" ++ toString ix.totalNumTokens
+  | _, _, _ => "bad-op"
 
 def handle : List String → String
   | ["ping"] => "pong"
@@ -126,6 +210,10 @@ def handle : List String → String
         (hexOfNats (VInt.serializeU32 Gen.Postings.VINT32_LADDER Gen.Postings.VINT32_LAST_BYTES
           Gen.Postings.VINT32_RADIX Gen.Postings.VINT32_STOP_BIT n)).getD "bad-op"
       else "bad-op"
+    | none => "bad-op"
+  | ["vint32_src", n] =>
+    match n.toNat? with
+    | some n => if n < 2 ^ 32 then (hexOfNats (VInt.packedBytes (BitVec.ofNat 32 n))).getD "bad-op" else "bad-op"
     | none => "bad-op"
   | ["vint32_dec", h] =>
     match natsOfHex h with
@@ -152,6 +240,28 @@ def handle : List String → String
         showNatList r.1 ++ "|" ++ showNatList (if hasFreq o then r.2 else r.1.map (fun _ => 1))
       | none => "bad-op"
     | _, _, _, _, _ => "bad-op"
+  | ["lazyseeks", o, df, h, ts] =>
+    match parseOpt o, df.toNat?, natsOfHex h, natList ts with
+    | some o, some df, some b, some ts =>
+      showNatList (BlockPostings.seekAll cfg (BlockPostings.open cfg o o df b) ts)
+    | _, _, _, _ => "bad-op"
+  | ["lazyops", o, df, h, prog] =>
+    let parseOp := fun (w : String) =>
+      if w == "A" then some BOp.advance
+      else if w.startsWith "S" then (w.drop 1).toNat?.map BOp.seek else none
+    match parseOpt o, df.toNat?, natsOfHex h, (if prog == "-" then some [] else (prog.splitOn ",").mapM parseOp) with
+    | some o, some df, some b, some ops =>
+      showNatList (BlockPostings.runOps cfg (BlockPostings.open cfg o o df b) ops)
+    | _, _, _, _ => "bad-op"
+  | ["lazyseeks_tf", o, df, h, ts] =>
+    match parseOpt o, df.toNat?, natsOfHex h, natList ts with
+    | some o, some df, some b, some ts =>
+      let step := fun (acc : BlockPostings × List Nat) (t : Nat) =>
+        let r := acc.1.seek cfg t
+        let d := r.1.docBuf.getD r.2 cfg.T
+        (r.1, acc.2 ++ [if d = cfg.T then 0 else r.1.freqs.getD r.2 0])
+      showNatList (ts.foldl step (BlockPostings.open cfg o o df b, [])).2
+    | _, _, _, _ => "bad-op"
   | ["tis_write", infos] =>
     match (if infos == "-" then some [] else (infos.splitOn ";").mapM parseTermInfo) with
     | some tis => (hexOfNats (TermInfoStore.storeBytes TermInfoStore.BLOCK_LEN tis)).getD "bad-op"
@@ -216,12 +326,30 @@ def handle : List String → String
       | some vs => showNatList vs
       | none => "err"
     | _, _, _ => "bad-op"
+  | ["pos_reads", h, reads] =>
+    match natsOfHex h, (reads.splitOn ",").mapM (fun r =>
+        match r.splitOn ":" with
+        | [o, l] => match o.toNat?, l.toNat? with
+          | some o, some l => some (o, l)
+          | _, _ => none
+        | _ => none) with
+    | some bs, some rs =>
+      match Positions.Reader.open cfg bs with
+      | some rd => "|".intercalate ((Positions.Reader.reads cfg rd rs).map showNatList)
+      | none => "err"
+    | _, _ => "bad-op"
   | ["blocksearch", vs, t] =>
     match natList vs, t.toNat? with
     | some vs, some t => if vs.length = cfg.B then toString (searchBlock cfg vs t) else "bad-op"
     | _, _ => "bad-op"
   | ["invert", o, corpus] => handleInvert o corpus
   | ["invert", o] => handleInvert o ""
+  | ["invert_json", o, corpus] => handleInvertJson o corpus
+  | ["invert_json", o] => handleInvertJson o ""
+  | ["pipeline_remap", o, ids, corpus] => handlePipelineRemap o ids corpus
+  | ["expull", n, ws] => handleExpull n ws
+  | ["segment", o, corpus] => handleSegment o corpus
+  | ["segment", o] => handleSegment o ""
   | ["pipeline", o, corpus] => handlePipeline o corpus
   | ["pipeline", o] => handlePipeline o ""
   | _ => "bad-op"
